@@ -35,6 +35,9 @@ def run(tier):
             for s in lst:
                 nsend += check_state(rep, s, tag)
         fail_obligations(rep, obs, 'R02.5', kinds=('uninit-read', 'uninit-copy'))
+        # a read or copy source outside its object puts bytes into play that no frame and no configuration determines
+        fail_obligations(rep, [o for o in obs if (o['msg'] or '').startswith(('memcpy source', 'read of')) or '] memcpy source' in (o['msg'] or '') or '] read of' in (o['msg'] or '')],
+                         'R02.5', kinds=('bounds',))
         fail_obligations(rep, [o for o in obs if 'send_frame' in (o['msg'] or '') or o['fn'] in ('setLltdHeader', 'setLltdHeaderEx', 'setHelloHeader')],
                          'R02.6', kinds=('bounds',))
     rep.analysed.update({'send_effects_examined': nsend, 'modes': ['mtu from port' if m else 'mtu fallback 1500' for m in modes]})
